@@ -16,36 +16,3 @@ def c13_semistrat_zero_part(fam, case, verdict):
     return False
 
 
-
-_NONNEG = ("RAYLEIGH", "GAMMA", "NEGATIVE_BINOMIAL", "BETA")
-
-
-@matcher
-def c13_setup_nonneg_dense_zero(fam, case, verdict):
-    """Only: `fg_setup.setup` (directly or through gcp_opt) REFUSES a DENSE tensor for one of the four losses with a
-    `valid_nonneg` check although every entry is >= 0 and some entry is exactly 0 (`data.data > 0` is strict; the same
-    data as an sptensor are accepted).  Implementation and Lean model agree; any other refusal / acceptance of the
-    family is still reported."""
-    from fractions import Fraction
-    what = getattr(verdict, "what", "") or ""
-    if fam != "gcp_setup" or not what.startswith("setup-nonneg-dense-zero:"):
-        return False
-    if case is None:
-        return True
-    xs = [Fraction(x) for x in case.get("entries", [])]
-    return case.get("rep") == "dense" and case.get("objective") in _NONNEG and bool(xs) and min(xs) == 0
-
-
-@matcher
-def c13_setup_natural_negative(fam, case, verdict):
-    """Only: `fg_setup.setup` ACCEPTS for POISSON / POISSON_LOG a tensor all of whose entries are integers and some
-    entry is negative (`valid_natural` tests `vals % 1 == 0` only)."""
-    from fractions import Fraction
-    what = getattr(verdict, "what", "") or ""
-    if fam != "gcp_setup" or not what.startswith("setup-natural-negative:"):
-        return False
-    if case is None:
-        return True
-    xs = [Fraction(x) for x in case.get("entries", [])]
-    return case.get("objective") in ("POISSON", "POISSON_LOG") and bool(xs) and min(xs) < 0 and \
-        all(x.denominator == 1 for x in xs)
